@@ -62,7 +62,7 @@ func parallel(n int, f func(i int) error) []parOutcome {
 }
 
 func cleanScript(s Script) Script {
-	s.Fault, s.ErrAt, s.ErrData, s.Sticky = false, 0, false, false
+	s.Fault, s.ErrAt, s.ErrData, s.Sticky, s.Err = false, 0, false, false, ""
 	return s
 }
 
